@@ -141,7 +141,7 @@ func (w *l2World) endOfBlock(bc blockCtx, res *abci.ResponseFinalizeBlock, anySu
 			return w.fail(mismatch{"plan.engine-set", "plan-engine-set", []string{"C14"}, fmt.Sprintf("at plan height %d the engine set is not exactly the plan's validator: %s", bc.Height, d)})
 		}
 		if fmt.Sprint(gs.Params.BridgeExecutors) != fmt.Sprint(plan.NextExecutors) {
-			return w.fail(mismatch{"plan.executors", "plan-executors", []string{"C14"}, fmt.Sprintf("bridge executors after plan: %v, want %v", gs.Params.BridgeExecutors, plan.NextExecutors)})
+			return w.fail(mismatch{"plan.executors", "plan-executors", []string{"C14", "C12"}, fmt.Sprintf("bridge executors after plan: %v, want %v", gs.Params.BridgeExecutors, plan.NextExecutors)})
 		}
 		w.r.Probe("plan.applied")
 	}
